@@ -85,6 +85,26 @@ thread_local! {
     static RECENT: std::cell::RefCell<std::collections::VecDeque<Case>> = const { std::cell::RefCell::new(std::collections::VecDeque::new()) };
 }
 const CHAIN: usize = 3;
+thread_local! {
+    /// landmark cases of this thread: the first one judged, the one with the longest buffer and the
+    /// one with the longest operation list (a high-water mark a library might keep is set by these)
+    static LANDMARKS: std::cell::RefCell<[Option<Case>; 3]> = const { std::cell::RefCell::new([None, None, None]) };
+}
+fn note_landmarks(case: &Case) {
+    LANDMARKS.with(|l| {
+        let mut l = l.borrow_mut();
+        if l[0].is_none() {
+            l[0] = Some(case.clone());
+        }
+        if l[1].as_ref().map_or(true, |c| c.data.len() < case.data.len()) {
+            l[1] = Some(case.clone());
+        }
+        let tl = |c: &Case| c.text.iter().map(|t| t.len()).sum::<usize>();
+        if l[2].as_ref().map_or(true, |c| tl(c) < tl(case)) {
+            l[2] = Some(case.clone());
+        }
+    });
+}
 
 /// Judges `chain` (results discarded) and then `case` on a thread that never ran the library.
 fn on_fresh_thread(judge: Judge, chain: Vec<Case>, case: Case) -> Acc {
@@ -117,18 +137,43 @@ pub fn judge_guarded(judge: Judge, case: &Case, acc: &mut Acc) {
         let alone = on_fresh_thread(judge, vec![], case.clone());
         let missing: Vec<&String> = fresh.iter().filter(|k| !alone.violations.contains_key(*k)).collect();
         if !missing.is_empty() {
-            let chain: Vec<Case> = RECENT.with(|r| r.borrow().iter().cloned().collect());
-            let chained = on_fresh_thread(judge, chain.clone(), case.clone());
-            for k in missing {
-                if chained.violations.contains_key(k) {
+            let recent: Vec<Case> = RECENT.with(|r| r.borrow().iter().cloned().collect());
+            let mut with_marks: Vec<Case> = LANDMARKS.with(|l| l.borrow().iter().flatten().cloned().collect());
+            with_marks.extend(recent.iter().cloned());
+            let mut left: Vec<String> = missing.into_iter().cloned().collect();
+            for chain in [recent, with_marks] {
+                if left.is_empty() {
+                    break;
+                }
+                let chained = on_fresh_thread(judge, chain.clone(), case.clone());
+                left.retain(|k| {
+                    if !chained.violations.contains_key(k) {
+                        return true;
+                    }
                     if let Some((v, _)) = local.violations.get_mut(k) {
                         v.replay = json!({"engine": "IN", "chain": chain.iter().map(|c| c.to_value()).collect::<Vec<_>>(), "case": case.to_value()});
                         v.what = format!("{} [only after earlier calls on the same thread: the replay judges {} earlier case(s) first]", v.what, chain.len());
                     }
+                    false
+                });
+            }
+            // Seen on the real code in this execution, but neither alone nor after the thread's recent
+            // and landmark cases: the operation is a function of its arguments, so the observation
+            // itself is the violation (its result depended on some earlier call of this thread).  The
+            // artefact records the case and says that it does not fail alone.
+            for k in left {
+                if let Some((mut v, n)) = local.violations.remove(&k) {
+                    let prop = v.property.clone();
+                    v.signature = format!("{prop}/result-depends-on-earlier-calls");
+                    v.what = format!("an operation that is a function of its arguments answered differently after earlier calls on the same thread: {} (observed as {k}; on a fresh thread the same case is clean)", v.what);
+                    v.replay = json!({"engine": "IN", "case": case.to_value(), "history_dependent": true, "observed": {"signature": k, "expected": v.expected, "observed": v.observed}});
+                    let e = local.violations.entry(v.signature.clone()).or_insert((v, 0));
+                    e.1 += n;
                 }
             }
         }
     }
+    note_landmarks(case);
     RECENT.with(|r| {
         let mut r = r.borrow_mut();
         if r.len() == CHAIN {
